@@ -1,5 +1,5 @@
 (* C12 - transfer callbacks bracket and count the transfer; cancellation stops and aborts. *)
-From LibFtp Require Import Bytes Ascii DataConn DataConn_Proofs Reply Client.
+From LibFtp Require Import Bytes Reply Endpoint Ascii DataConn DataConn_Proofs Client Client_Proofs Login_Proofs Transfer_Proofs Transfer_More.
 Local Open Scope N_scope.
 
 (* upload: poll first; cancelled at once => nothing else happens (no begin, no end, no byte);
@@ -55,3 +55,24 @@ Example C12_example :
   let '(ev, r, _) := data_recv TBinary (mkSink None O) [[1]; [2]; [3]] DEof (Some [false; false; true]) in
   r = PCancelled /\ notified ev = 2%nat /\ sink_bytes ev = [1; 2].
 Proof. vm_compute. auto. Qed.
+
+(* a whole cancelled download (passive modes, any transfer type): ABOR is sent after the data loop stopped, the 426 and the following reply are both read and returned, the data socket is closed without graceful shutdown, the session stays in step *)
+Theorem C12_cancelled_download_aborts : forall w path answers answers' answers'' ev r1 r2 r3 rest x1 x2 x4 x5 ip port pr,
+  insync w (r1 :: r2 :: r3 :: rest) -> w_data w = None ->
+  c_mode (w_cfg w) = Passive -> c_tls (w_cfg w) = false ->
+  has_crlf path = false ->
+  simple_reaction r1 x1 -> is_negative x1 = false -> passive_target (w_cfg w) x1 ip port ->
+  dp_reachable (r_data r1) = true ->
+  simple_reaction r2 x2 -> is_negative x2 = false ->
+  data_recv (c_type (w_cfg w)) (mkSink None O) (dp_segs (r_data r2)) (dp_end (r_data r2)) (Some answers) = (ev, pr, Some answers') ->
+  pr <> PThrow -> poll answers' = (true, answers'') ->
+  r_now r3 = [RReply x4; RReply x5] -> r_on_close r3 = [] -> r_close_after r3 = false ->
+  code x4 = 426 -> code x5 <> 421 ->
+  exists w', step w (ADownload path (Some answers) None) = (OReturn (RvReplies [x1; x2; x4; x5]), w') /\
+    insync w' rest /\ w_data w' = None /\
+    wire_events (skipn (length (w_trace w)) (w_trace w')) =
+      [WLine (setup_line (w_cfg w)); WReply x1; WLine (RETR_ ++ SP :: path); WReply x2; WLine ABOR_; WReply x4; WReply x5] /\
+    data_events (skipn (length (w_trace w)) (w_trace w')) = [DNewObj; DConnectTo ip port true; DClose] /\
+    io_events (skipn (length (w_trace w)) (w_trace w')) = ev ++ [IoPoll true].
+Proof. exact download_cancelled_passive. Qed.
+Print Assumptions C12_cancelled_download_aborts.
